@@ -1192,7 +1192,7 @@ def make_snapshot_cases(run, pool, snaps):
                 singles = list(sysrem)
                 enumerated.setdefault("singles", []).append(snap.rel)
             else:
-                singles = sorted(set(rng.choices(sysrem, weights=[G.interest(p) for p in sysrem], k=120)))
+                singles = sorted(set(rng.choices(sysrem, weights=[G.interest(p) for p in sysrem], k=100)))
             if 2 <= len(sysrem) <= 16:
                 pairs = [(a, b) for i, a in enumerate(sysrem) for b in sysrem[i + 1:] if not b.startswith(a + "/")]
                 enumerated.setdefault("pairs", []).append(snap.rel)
@@ -1217,7 +1217,7 @@ def class_of(p):
 def class_cases(run, pool, snaps):
     """Systematic single removals of attribute files under sys/devices/system (x86: the cpuid dump): one
     light case per (snapshot x file-name class) - the instance rotates with the seed - in the quick tier,
-    up to 6 instances per class in the thorough tier."""
+    up to 4 instances per class in the thorough tier."""
     quick = run.tier == "quick"
     cases = []
     nclasses = 0
@@ -1233,7 +1233,7 @@ def class_cases(run, pool, snaps):
         for cls in sorted(classes):
             inst = classes[cls]
             nclasses += 1
-            k = 1 if quick else min(len(inst), 6)
+            k = 1 if quick else min(len(inst), 4)
             start = (run.seed * 7 + len(cls)) % len(inst)
             step = max(1, len(inst) // k)
             for j in range(k):
@@ -1441,7 +1441,7 @@ def node_mutation_cases(run, pool, snaps):
     cases = []
     if not multi:
         return cases
-    total = 80 if quick else 1500
+    total = 80 if quick else 1000
     nd = "sys/devices/system/node/"
     for k in range(total):
         snap, nodes, gpus = multi[(run.seed + k) % len(multi)]
@@ -1652,7 +1652,7 @@ def x86_mutation_cases(run, snaps):
             ops = ["+put %s %s" % (n, t.encode().hex()) for n, t in sorted(unk.items())]
             for fl, bind in ((18, "0"), (18, "0,1"), (2, "1")) if not quick else ((18, rng.choice(["0", "0,1", "1"])),):
                 cases.append(("x86-mutation", (snap, "x86,stop", {"HWLOC_COMPONENTS": "x86,stop", "_bind": bind, "_light": "1"}, [], fl, ops)))
-        for _ in range(3 if quick else 20):
+        for _ in range(3 if quick else 12):
             kind, changed = mutate_cpuid(rng, pus)
             ops = ["+put %s %s" % (n, t.encode().hex() or "-") for n, t in sorted(changed.items())]
             env = {"HWLOC_COMPONENTS": "x86,stop"}
